@@ -170,7 +170,11 @@ pub fn gen_program(rng: &mut Rng, small: bool) -> SymProgram {
           match rng.below(3) {
             0 => s.push_str(&format!("export {{ ns{}x{} }};\n", i, k)),
             1 if !cands.is_empty() => {
-              s.push_str(&format!("export import eq{}x{} = ns{}x{}.{};\n", i, k, i, k, rng.pick(cands)))
+              // a member of the namespace: one of the target's own exports, or a name some other module
+              // exports (it reaches the target through `export *` chains, or not at all)
+              let any: Vec<&String> = exported.iter().flatten().collect();
+              let name = if rng.coin() { rng.pick(cands).clone() } else { (*rng.pick(&any)).clone() };
+              s.push_str(&format!("export import eq{}x{} = ns{}x{}.{};\n", i, k, i, k, name))
             }
             _ => {}
           }
@@ -548,6 +552,23 @@ pub fn check_graph(acc: &mut Acc, g: &ModuleGraph, analyzer: &CapturingModuleAna
             }
             if matches!(def.kind, DefinitionKind::ExportStar(_)) {
               acc.count("goto_export_star_markers");
+            }
+            // the definition names a symbol of the module it points into, and one of that symbol's declarations
+            let owned = def.module.symbol(def.symbol.symbol_id()).is_some_and(|s| std::ptr::eq(s, def.symbol));
+            if !owned {
+              acc.violation(
+                "goto/definition-module-does-not-own-the-symbol",
+                format!("{}: from {:?} reached symbol {:?} paired with module {}", spec, symbol.symbol_id(), def.symbol.symbol_id(), def.module.specifier()),
+                w(json!({})),
+              );
+            } else if !def.symbol.decls().iter().any(|d| std::ptr::eq(d, def.symbol_decl)) {
+              acc.violation(
+                "goto/definition-declaration-not-of-the-symbol",
+                format!("{}: from {:?} reached {:?} in {}", spec, symbol.symbol_id(), def.symbol.symbol_id(), def.module.specifier()),
+                w(json!({})),
+              );
+            } else {
+              acc.count("goto_definitions_owned_by_their_module");
             }
             let r = def.byte_range();
             let t = def.module.text();
